@@ -55,6 +55,11 @@ func (g *Gen) calleeKeys(c *ssa.CallCommon) (keys []string, static *ssa.Function
 	if static != nil {
 		name = static.Name()
 		keys = append(keys, name)
+		if o := static.Origin(); o != nil && o != static {
+			// instantiation of a generic function: also match its plain name
+			name = o.Name()
+			keys = append(keys, o.Name())
+		}
 		if static.Pkg != nil {
 			pkgPath = static.Pkg.Pkg.Path()
 			keys = append(keys, static.RelString(g.fn.Pkg.Pkg), static.String())
